@@ -205,7 +205,7 @@ def r7_teardown(ctx):
         ctx.ok("C05.R7", loc(fi), "terminate() is a no-op once terminating")
     risky = ("callback", "join", "shutdown")
     ip = Interp(repo, raising=lambda d: d["name"].rsplit(".", 1)[-1] in risky,
-                call_models={"self.shm_process.is_alive": lambda *a: True, "self.data_server.is_alive": lambda *a: True})
+                call_models={("method", "is_alive"): lambda *a: True})
     paths = ip.explore(fi, env={**base, "self.terminating": False})
     ctx.evals(len(paths))
     n = 0
